@@ -237,6 +237,12 @@ func (c04) Gen(r *rand.Rand, tier string, run int) *core.Case {
 			c.Ops = append(c.Ops, core.Op{Kind: "raw", Actor: 100, X: int64(1 + r.IntN(8)), Y: int64(r.IntN(4)), S: "lent"})
 		}
 	}
+	if c.Params["lend"] == 1 && c.Params["lend_same"] == 0 && r.IntN(4) == 0 {
+		// a peer of another kind asks a lent object for its events: a
+		// registerEvent call that names the object the way its lender does
+		// (the last thing that peer does: see the known finding)
+		c.Ops = append(c.Ops, core.Op{Kind: "raw", Actor: 100, X: int64(ref.Call), Y: int64(r.IntN(4)), S: "lent-reg"})
+	}
 	if c.Params["raw"] == 1 && r.IntN(3) == 0 {
 		// one more peer, in a hurry: it calls the service before it has
 		// authenticated, then authenticates and calls again on the same
@@ -277,6 +283,9 @@ type c04state struct {
 	mu        sync.Mutex
 	takeBack  func()
 	takenBack int64
+	// the objects the clients lent, by the number of the server object they
+	// were lent to
+	lentImpls map[int]*LentImpl
 }
 
 type c04raw struct {
@@ -289,7 +298,7 @@ type c04raw struct {
 }
 
 func (c04) Run(c *core.Case, env *core.Env) {
-	st := &c04state{}
+	st := &c04state{lentImpls: map[int]*LentImpl{}}
 	env.Set("st", st)
 	env.NW.PauseFaults(true) // faults hit the calls, not the set-up
 	w, err := StartServer(env, bus.Dictionary(map[string]string{"u": "p"}), c.P("objects", 1))
@@ -366,7 +375,8 @@ func (c04) Run(c *core.Case, env *core.Env) {
 				if err == nil {
 					zzsim.SetNode("lender")
 					idleRef := lpx.Proxy().ProxyService(nil)
-					lp, err = probe.CreateLent(nil, idleRef, &LentImpl{Env: env, Obj: 100})
+					st.lentImpls[0] = &LentImpl{Env: env, Obj: 100}
+					lp, err = probe.CreateLent(nil, idleRef, st.lentImpls[0])
 					if err == nil {
 						err = lpx.Lend(lp)
 					}
@@ -392,7 +402,8 @@ func (c04) Run(c *core.Case, env *core.Env) {
 				}
 				continue
 			} else {
-				lp, err = probe.CreateLent(nil, svcRef, &LentImpl{Env: env, Obj: 100 + o, RefuseEvery: c.P("lent_refuses", 0)})
+				st.lentImpls[o] = &LentImpl{Env: env, Obj: 100 + o, RefuseEvery: c.P("lent_refuses", 0)}
+				lp, err = probe.CreateLent(nil, svcRef, st.lentImpls[o])
 			}
 			if o == 0 {
 				firstLent = lp
@@ -748,9 +759,26 @@ func c04raws(env *core.Env, st *c04state, ops []core.Op) {
 			payload = ref.EncodeToken(tok)
 			key = tok.Key()
 			env.Probe("raw-frames-to-lent-objects")
+		case "lent-reg":
+			o := int(op.Y) % len(w.Impls)
+			li := st.lentImpls[o]
+			obj = w.Impls[o].LentPublicID()
+			if obj == 0 || li == nil || li.Activated() == 0 {
+				continue
+			}
+			var b ref.Buf
+			b.U32(li.Activated()) // the identifier the lender knows the object by
+			b.U32(SigTick)
+			b.U64(uint64(4000 + i))
+			payload, act = b.Bytes(), 0
+			env.Probe("raw-registerEvent-to-a-lent-object")
 		}
 		rec := c04raw{id: id, typ: uint8(op.X), act: act, key: key, pay: op.S}
-		h := env.Invoke(100, "raw-"+ref.TypeName(uint8(op.X)), fmt.Sprintf("a%d id%d %s %s", act, id, op.S, key))
+		kind := "raw-" + ref.TypeName(uint8(op.X))
+		if op.S == "lent-reg" {
+			kind = "raw-registerEvent-to-a-lent-object"
+		}
+		h := env.Invoke(100, kind, fmt.Sprintf("a%d id%d %s %s", act, id, op.S, key))
 		err := raw.Send(ref.NewFrame(uint8(op.X), svc, obj, act, id, payload))
 		rec.sent = err == nil
 		st.rawSent = append(st.rawSent, rec)
@@ -948,6 +976,9 @@ func (c04) Check(c *core.Case, env *core.Env, res zzsim.Result, v *core.Verdict)
 		for _, rf := range st.rawSent {
 			if !rf.sent {
 				continue
+			}
+			if rf.pay == "lent-reg" && resp[rf.id] == 0 {
+				continue // (reported as the hang of that request)
 			}
 			isNoarg := rf.act == ActNoarg
 			if isNoarg && (rf.typ == ref.Call || rf.typ == ref.Post) {
